@@ -11,12 +11,13 @@ from . import methods_staticarray
 from . import methods_checked
 from . import methods_optional
 from . import validator_layout
+from . import methods_group
 
 
 def run(repo, outdir):
     report = {'failed': {}, 'parts': {}}
     for name, mod in (('kernels', kernels), ('kernels_group', kernels_group), ('tables', tables), ('guards', guards), ('unchecked_sites', unchecked_sites),
-                      ('nondet_sources', nondet_sources), ('cursor_sites', cursor_sites), ('size_checks', size_checks), ('gen_templates', gen_templates), ('methods_dynarray', methods_dynarray), ('methods_cursor', methods_cursor), ('methods_staticarray', methods_staticarray), ('methods_checked', methods_checked), ('methods_optional', methods_optional), ('validator_layout', validator_layout)):
+                      ('nondet_sources', nondet_sources), ('cursor_sites', cursor_sites), ('size_checks', size_checks), ('gen_templates', gen_templates), ('methods_dynarray', methods_dynarray), ('methods_cursor', methods_cursor), ('methods_staticarray', methods_staticarray), ('methods_checked', methods_checked), ('methods_optional', methods_optional), ('validator_layout', validator_layout), ('methods_group', methods_group)):
         r = mod.extract(repo, outdir)
         report['parts'][name] = r
         for k, v in r.get('failed', {}).items():
